@@ -121,7 +121,7 @@ func run(c Case) (v vkit.Verdict) {
 			msg = fmt.Sprintf("inverse of (%v, %v) -> (%v, %v), error %v", x, y, lon2, lat2, err)
 			return
 		}
-		if angDiff(lon2, lon) > 1e-6 || math.Abs(lat2-c.Lat) > 1e-6 {
+		if angDiff(lon2, lon) > 1e-6 || vkit.Off(lat2-c.Lat, 1e-6) {
 			msg = fmt.Sprintf("geo->proj->geo: (%.9f, %.9f) -> (%.4f, %.4f) -> (%.9f, %.9f): off by (%.3g, %.3g) degrees", lon, c.Lat, x, y, lon2, lat2, angDiff(lon2, lon), math.Abs(lat2-c.Lat))
 			return
 		}
@@ -143,7 +143,7 @@ func run(c Case) (v vkit.Verdict) {
 		if c.Dst.Proj == "longlat" {
 			tol = 1e-6 // degrees
 		}
-		if math.Abs(x2-x) > tol || math.Abs(y2-y) > tol {
+		if vkit.Off(x2-x, tol) || vkit.Off(y2-y, tol) {
 			msg = fmt.Sprintf("proj->geo->proj: (%.4f, %.4f) -> (%.9f, %.9f) -> (%.4f, %.4f): off by (%.3g, %.3g) units (tolerance %.3g)", x, y, lon2, lat2, x2, y2, math.Abs(x2-x), math.Abs(y2-y), tol)
 		}
 	}); p != "" {
